@@ -110,7 +110,9 @@ partial def mkMediaType (env : Env) (key : String) (j : Json) : Doc :=
     ((match field? j "schema" with | some s => [("schema", mkRef env .schemaRef (mkSchema env) "" s)] | none => []) ++
      mapKids j "examples" "examples" (fun k x => mkRef env .exampleRef mkExample k x) ++
      mapKids j "encoding" "encoding" (fun k x =>
-       .node .encoding { strs := withKey k [], exts := unknownKeys x ["contentType", "headers", "style", "explode", "allowReserved"] }
+       let explode := match x.getObjVal? "explode" with | .ok (.bool b) => [("explode", if b then "true" else "false")] | _ => []
+       .node .encoding { strs := withKey k (strAttrs x ["style"] ++ explode),
+                         exts := unknownKeys x ["contentType", "headers", "style", "explode", "allowReserved"] }
          (mapKids x "headers" "headers" (fun hk h => mkRef env .headerRef (mkParamLike env .header) hk h))))
 partial def mkContent (env : Env) (j : Json) : Doc :=
   .node .content {} ((objKVs j).map (fun kv => ("mediaTypes", mkMediaType env kv.1 kv.2)))
@@ -148,6 +150,21 @@ def mkResponses (env : Env) (j : Json) : Doc :=
   let rs := (objKVs j).filter (fun kv => !isExtKey kv.1)
   .node .responses { nums := [("count", rs.length)] } (rs.map (fun kv => ("responses", mkRef env .responseRef (mkResponse env) kv.1 kv.2)))
 
+/-- all entries of an object, null ones included -/
+def mapKidsN (j : Json) (k pos : String) (f : String → Json → Doc) : List (String × Doc) :=
+  match j.getObjVal? k with | .ok m => (objKVs m).map (fun kv => (pos, f kv.1 kv.2)) | .error _ => []
+
+def mkServer (j : Json) : Doc :=
+  .node .server { strs := strAttrs j ["url"], exts := unknownKeys j ["url", "description", "variables"],
+                  flags := flagIf j.isNull "null" }
+    (mapKidsN j "variables" "variables" (fun k x =>
+      leaf .serverVar x ["enum", "default", "description"] ["default"] k (flagIf x.isNull "null")))
+
+def serversKid (j : Json) : List (String × Doc) :=
+  match field? j "servers" with
+  | some sv => [("servers", .node .servers {} ((asArr sv).map (fun x => ("items", mkServer x))))]
+  | none => []
+
 def opKnown : List String := ["tags", "summary", "description", "operationId", "parameters", "requestBody", "responses",
   "callbacks", "deprecated", "security", "servers", "externalDocs"]
 
@@ -156,7 +173,8 @@ def mkOperation (env : Env) (key : String) (j : Json) : Doc :=
     ((match field? j "parameters" with | some p => [("parameters", mkParameters env p)] | none => []) ++
      (match field? j "requestBody" with | some b => [("requestBody", mkRef env .requestBodyRef (mkRequestBody env) "" b)] | none => []) ++
      (match field? j "responses" with | some r => [("responses", mkResponses env r)] | none => []) ++
-     (match field? j "externalDocs" with | some x => [("externalDocs", mkExternalDocs x)] | none => []))
+     (match field? j "externalDocs" with | some x => [("externalDocs", mkExternalDocs x)] | none => []) ++
+     serversKid j)
 
 def methods : List String := ["connect", "delete", "get", "head", "options", "patch", "post", "put", "trace"]
 def pathItemKnown : List String := ["$ref", "summary", "description", "servers", "parameters"] ++ methods
@@ -164,7 +182,8 @@ def pathItemKnown : List String := ["$ref", "summary", "description", "servers",
 def mkPathItem (env : Env) (key : String) (j : Json) : Doc :=
   .node .pathItem { strs := withKey key [], exts := unknownKeys j pathItemKnown }
     (methods.filterMap (fun m => (field? j m).map (fun o => ("operations", mkOperation env m o))) ++
-     (match field? j "parameters" with | some p => [("parameters", mkParameters env p)] | none => []))
+     (match field? j "parameters" with | some p => [("parameters", mkParameters env p)] | none => []) ++
+     serversKid j)
 
 def mkPaths (env : Env) (j : Json) : Doc :=
   .node .paths {} (((objKVs j).filter (fun kv => !isExtKey kv.1)).map (fun kv => ("pathItems", mkPathItem env kv.1 kv.2)))
@@ -183,10 +202,6 @@ def mkSecurityScheme (j : Json) : Doc :=
           (["implicit", "password", "clientCredentials", "authorizationCode"].filterMap (fun ft => (field? f ft).map (fun x => (ft, mkFlow ft x)))))]
      | none => [])
 
-def mkServer (j : Json) : Doc :=
-  .node .server { strs := strAttrs j ["url"], exts := unknownKeys j ["url", "description", "variables"] }
-    (mapKids j "variables" "variables" (fun k x => leaf .serverVar x ["enum", "default", "description"] ["default"] k))
-
 def mkComponents (env : Env) (j : Json) : Doc :=
   .node .components { exts := unknownKeys j componentPositions }
     (mapKids j "schemas" "schemas" (fun k x => mkRef env .schemaRef (mkSchema env) k x) ++
@@ -196,7 +211,10 @@ def mkComponents (env : Env) (j : Json) : Doc :=
      mapKids j "headers" "headers" (fun k x => mkRef env .headerRef (mkParamLike env .header) k x) ++
      mapKids j "securitySchemes" "securitySchemes" (fun k x => mkRef env .securitySchemeRef mkSecurityScheme k x) ++
      mapKids j "examples" "examples" (fun k x => mkRef env .exampleRef mkExample k x) ++
-     mapKids j "links" "links" (fun k x => mkRef env .linkRef mkLink k x))
+     mapKids j "links" "links" (fun k x => mkRef env .linkRef mkLink k x) ++
+     mapKids j "callbacks" "callbacks" (fun k x => mkRef env .callbackRef
+       (fun c => .node .callback {}          -- every key that is not an `x-` extension is a path item (an expression)
+         (((objKVs c).filter (fun kv => !isExtKey kv.1 && kv.1 != "__origin__")).map (fun kv => ("pathItems", mkPathItem env kv.1 kv.2)))) k x))
 
 def mkInfo (j : Json) : Doc :=
   .node .info { strs := strAttrs j ["title", "version"],
@@ -213,9 +231,9 @@ def mkRoot (env : Env) : Doc :=
      (match field? j "info" with | some c => [("info", mkInfo c)] | none => []) ++
      (match field? j "paths" with | some c => [("paths", mkPaths env c)] | none => []) ++
      (match field? j "security" with | some _ => [("security", .node .securityReqs {} [])] | none => []) ++
-     (match field? j "servers" with | some s => [("servers", .node .servers {} ((asArr s).map (fun x => ("items", mkServer x))))] | none => []) ++
+     serversKid j ++
      (match field? j "tags" with | some s => [("tags", .node .tags {} ((asArr s).map (fun x => ("items",
-        .node .tag { exts := unknownKeys x ["name", "description", "externalDocs"] }
+        .node .tag { exts := unknownKeys x ["name", "description", "externalDocs"], flags := flagIf x.isNull "null" }
           (match field? x "externalDocs" with | some e => [("externalDocs", mkExternalDocs e)] | none => [])))))] | none => []) ++
      (match field? j "externalDocs" with | some x => [("externalDocs", mkExternalDocs x)] | none => []))
 
@@ -238,10 +256,10 @@ def handle (j : Json) : Json :=
   let s := specVerdict o d
   let excl :=
     (if nodes.any excl7Node then ["ExclTemplateNames"] else []) ++
-    (if nodes.any (fun n => exclHeaderNode o n || exclBelow knownUncovered o n) then ["ExclExtraFieldsUnchecked"] else []) ++
+    (if nodes.any (exclBelow [(.schema, "xml"), (.schema, "discriminator")] o) then ["ExclExtraFieldsUnchecked"] else []) ++
     (if nodes.any (exclInnerNode o) then ["ExclInnerRefSiblings"] else []) ++
-    (if nodes.any (exclExternalNode o) then ["ExclExternalExample"] else []) ++
-    (if nodes.any (exclHeaderExampleNode o) then ["ExclHeaderExample"] else [])
+    (if nodes.any (exclBelow [(.pathItem, "servers"), (.operation, "servers")] o) then ["ExclNestedServersUnchecked"] else []) ++
+    (if nodes.any (fun n => exclEncNode codeTable o n || exclBelow [(.encoding, "headers")] o n) then ["ExclEncodingHeaderErrorsDropped"] else [])
   let viols := nodes.flatMap (fun n => (violations n).map (fun v =>
     s!"{v.rule}@{kindName n.kind}" ++ (if enabled o v then "" else ":off")))
   let branches := dedup (viols ++
